@@ -546,6 +546,36 @@ func ruleVerdictKept(c *Ctx, a *udpAnchors, rule string) {
 			}
 		}
 	}
+	// ... and wrappers of those (targetRejectedError(err) = ensureConnectionError(err, status, msg))
+	for changed := true; changed; {
+		changed = false
+		for _, f := range p.Fns {
+			if _, done := preserving[f]; done || p.IsTestSupport(f) || f.Signature.Results().Len() != 1 || eng.TypeName(f.Signature.Results().At(0).Type()) != "net.ConnectionError" {
+				continue
+			}
+			for i, pa := range f.Params {
+				all, nr := true, 0
+				for _, r := range eng.Returns(f) {
+					nr++
+					g, _ := p.AllFrom(r.Results[0], eng.Plain, func(v ssa.Value) bool {
+						cc, ok := v.(*ssa.Call)
+						if !ok {
+							return false
+						}
+						idx, isP := preserving[cc.Call.StaticCallee()]
+						return isP && idx < len(cc.Call.Args) && p.AnyFrom(cc.Call.Args[idx], eng.OriginOpts{ThroughConvert: true}, func(y ssa.Value) bool { return y == ssa.Value(pa) })
+					})
+					if !g {
+						all = false
+					}
+				}
+				if all && nr > 0 {
+					preserving[f] = i
+					changed = true
+				}
+			}
+		}
+	}
 	n := 0
 	for _, v := range a.vals {
 		f := v.Parent()
